@@ -711,6 +711,11 @@ def compare_obs(ctx, ci, kind, kn, d, env, model, pool_index, replay):
 
 # ------------------------------------------------------------------------------------------------
 def threaded(ctx, sp, pool, clock, classes, pool_index):
+    slow_sink(ctx, sp, pool, clock, classes, pool_index)
+    _threaded(ctx, sp, pool, clock, classes, pool_index)
+
+
+def _threaded(ctx, sp, pool, clock, classes, pool_index):
     """The real update thread with tiny intervals: it must survive, and the last output must show the final counts."""
     rng = ctx.rng
     KN = ["console", "html", "ipython"]
@@ -788,6 +793,56 @@ def threaded(ctx, sp, pool, clock, classes, pool_index):
     finally:
         threading.excepthook = old_hook
         clock.auto = None
+
+
+def slow_sink(ctx, sp, pool, clock, classes, pool_index):
+    """The run finishes while a periodic rendering is still being written (slow HTML target / blocked stdout):
+    the update loop must still emit one more rendering after `done`, so the last output shows the final counts."""
+    rng = ctx.rng
+    C, H, I = classes
+    for ti in range(ctx.n(6, 40)):
+        case = gen_case(rng, pool)
+        evs = [e for e in case["evs"] if e[0] != "P"]
+        tot = [e for e in evs if e[0] == "T"]
+        rest = [e for e in evs if e[0] != "T"]
+        if not tot or not rest:
+            continue
+        clock.auto, clock.log = F(0), []
+        sink, entered, release = [], threading.Event(), threading.Event()
+
+        def out(b):
+            first = not sink
+            sink.append(b)
+            if first:
+                entered.set()
+                release.wait(2.0)       # the first rendering is "being written" while the run goes on and finishes
+
+        obs = H(out, initial_update_delay=0.0005, min_update_interval=0.0005, max_update_interval=F(3))
+        names = names_of(pool, case["keys"])
+        obs.__enter__()
+        try:
+            for e in tot:
+                obs.increment_total(section=e[1][0], scope=tuple(pool[j] for j in e[1][1]), amount=e[2])
+            entered.wait(2.0)
+            for i, e in enumerate(rest):
+                sc = tuple(pool[j] for j in e[1][1])
+                if e[0] == "R":
+                    obs.increment_running(section=e[1][0], scope=sc)
+                elif e[0] == "C":
+                    obs.increment_completed(section=e[1][0], scope=sc)
+                else:
+                    obs.increment_failed(section=e[1][0], scope=sc, exception=mk_exc(i))
+            t = threading.Timer(0.02, release.set)     # __exit__ sets done while the first write is still blocked
+            t.start()
+        finally:
+            obs.__exit__(None, None, None)
+        replay = {"kind": "html", "slow_sink": True, "events": [[e[0]] + [str(x) for x in e[1:]] for e in evs],
+                  "values": {str(i): repr(pool[i]) for k in case["keys"] for i in k[1]}, "renderings": len(sink)}
+        ctx.case(("slow-sink", ti))
+        m, _ = impl_state(obs, pool_index)
+        renders = [parse_html(b, names) for b in sink]
+        check_last(ctx, "html", 1, renders, m, replay)
+    clock.auto = None
 
 
 def sentinel(ctx, sp):
